@@ -247,79 +247,96 @@ theorem sortHits_filter (p : Hit ℝ → Bool) (l : List (Hit ℝ)) :
 
 /-! ### firstExit / firstEntered -/
 
+/-- crossing one hit flips the sense of its face -/
+def flip1 (s : Array Bool) (h : Hit ℝ) : Array Bool :=
+  s.setIfInBounds h.face (!(s.getD h.face false))
+
 /-- the sense vector after crossing the given hits in order -/
 def flipAll (s : Array Bool) : List (Hit ℝ) → Array Bool
   | [] => s
-  | h :: t => flipAll (s.setIfInBounds h.face (!(s.getD h.face false))) t
+  | h :: t => flipAll (flip1 s h) t
+
+theorem firstExit_nil (inside : Array Bool → Bool) (s : Array Bool) :
+    firstExit inside s ([] : List (Hit ℝ)) = none := rfl
+
+theorem firstExit_cons (inside : Array Bool → Bool) (s : Array Bool) (h : Hit ℝ) (t : List (Hit ℝ)) :
+    firstExit inside s (h :: t) =
+      if inside (flip1 s h) = false then some (h, s.getD h.face false)
+      else firstExit inside (flip1 s h) t := by
+  show (if (!inside (flip1 s h)) = true then _ else _) = _
+  cases inside (flip1 s h) <;> rfl
 
 theorem flipAll_append (s : Array Bool) (a b : List (Hit ℝ)) :
     flipAll s (a ++ b) = flipAll (flipAll s a) b := by
   induction a generalizing s with
   | nil => rfl
-  | cons h t ih => simp [flipAll, ih]
+  | cons h t ih => exact ih (flip1 s h)
 
 theorem firstExit_mem (inside : Array Bool → Bool) (s : Array Bool) (l : List (Hit ℝ))
     (r : Hit ℝ × Bool) (h : firstExit inside s l = some r) : r.1 ∈ l := by
   induction l generalizing s with
-  | nil => simp [firstExit] at h
+  | nil => rw [firstExit_nil] at h; exact absurd h (by simp)
   | cons x t ih =>
-    simp only [firstExit] at h
+    rw [firstExit_cons] at h
     split at h
-    · simp at h; subst h; simp
+    · have : r = (x, s.getD x.face false) := (Option.some.inj h).symm
+      rw [this]; exact List.mem_cons_self
     · exact List.mem_cons_of_mem _ (ih _ h)
 
-/-- characterisation of `firstExit`: it returns the hit of index `k` iff the logic stays true after
-    each of the first `k` crossings and becomes false after crossing number `k+1` -/
-theorem firstExit_spec (inside : Array Bool → Bool) (s : Array Bool) (l : List (Hit ℝ)) :
-    (∀ r, firstExit inside s l = some r →
-      ∃ a b, l = a ++ r.1 :: b ∧
-        (∀ k < a.length + 1, k ≠ 0 → k ≤ a.length → inside (flipAll s (l.take k)) = true) ∧
-        inside (flipAll s (a ++ [r.1])) = false ∧
-        r.2 = (flipAll s a).getD r.1.face false) ∧
-    (firstExit inside s l = none → ∀ k, k ≠ 0 → k ≤ l.length → inside (flipAll s (l.take k)) = true) := by
+/-- characterisation of `firstExit`: it returns the hit of index `a.length` iff the logic is
+    true after each of the first `a.length` crossings and false after the next one -/
+theorem firstExit_some (inside : Array Bool → Bool) (s : Array Bool) (l : List (Hit ℝ))
+    (r : Hit ℝ × Bool) (hr : firstExit inside s l = some r) :
+    ∃ a b, l = a ++ r.1 :: b ∧
+      (∀ k, k ≠ 0 → k ≤ a.length → inside (flipAll s (l.take k)) = true) ∧
+      inside (flipAll s (a ++ [r.1])) = false ∧
+      r.2 = (flipAll s a).getD r.1.face false := by
   induction l generalizing s with
-  | nil =>
-    refine ⟨by simp [firstExit], ?_⟩
-    intro _ k hk hk'; simp at hk'; exact absurd hk' hk
+  | nil => rw [firstExit_nil] at hr; exact absurd hr (by simp)
   | cons x t ih =>
-    simp only [firstExit]
-    set s' := s.setIfInBounds x.face (!(s.getD x.face false)) with hs'
-    by_cases hin : inside s' = true
-    · simp only [hin, Bool.not_true, Bool.false_eq_true, if_false]
-      obtain ⟨ih1, ih2⟩ := ih s'
-      refine ⟨?_, ?_⟩
-      · intro r hr
-        obtain ⟨a, b, hab, hk, hout, hold⟩ := ih1 r hr
-        refine ⟨x :: a, b, by rw [hab]; rfl, ?_, ?_, ?_⟩
-        · intro k _ hk0 hkle
-          cases k with
-          | zero => exact absurd rfl hk0
-          | succ k =>
-            simp only [List.take_succ_cons, flipAll]
-            rw [← hs']
-            by_cases hk00 : k = 0
-            · subst hk00; simpa [flipAll] using hin
-            · exact hk k (by simp at hkle; omega) hk00 (by simpa using hkle)
-        · simpa [flipAll, ← hs'] using hout
-        · simpa [flipAll, ← hs'] using hold
-      · intro hnone k hk0 hkle
+    rw [firstExit_cons] at hr
+    by_cases hin : inside (flip1 s x) = false
+    · rw [if_pos hin] at hr
+      have : r = (x, s.getD x.face false) := (Option.some.inj hr).symm
+      subst this
+      refine ⟨[], t, rfl, ?_, ?_, rfl⟩
+      · intro k hk0 hkle
+        exact absurd (Nat.le_zero.1 hkle) hk0
+      · exact hin
+    · rw [if_neg hin] at hr
+      have hin' : inside (flip1 s x) = true := by simpa using hin
+      obtain ⟨a, b, hab, hk, hout, hold⟩ := ih (flip1 s x) hr
+      refine ⟨x :: a, b, by rw [hab]; rfl, ?_, ?_, ?_⟩
+      · intro k hk0 hkle
         cases k with
         | zero => exact absurd rfl hk0
         | succ k =>
-          simp only [List.take_succ_cons, flipAll]
-          rw [← hs']
+          show inside (flipAll (flip1 s x) (t.take k)) = true
           by_cases hk00 : k = 0
-          · subst hk00; simpa [flipAll] using hin
-          · exact ih2 hnone k hk00 (by simpa using hkle)
-    · have hin' : inside s' = false := by simpa using hin
-      simp only [hin', Bool.not_false, if_true]
-      refine ⟨?_, by simp⟩
-      intro r hr
-      simp at hr; subst hr
-      refine ⟨[], t, rfl, ?_, ?_, ?_⟩
-      · intro k hk hk0 hkle; simp at hkle; exact absurd hkle hk0
-      · simpa [flipAll, ← hs'] using hin'
-      · simp [flipAll]
+          · subst hk00; exact hin'
+          · exact hk k hk00 (by simpa using hkle)
+      · exact hout
+      · exact hold
+
+theorem firstExit_none (inside : Array Bool → Bool) (s : Array Bool) (l : List (Hit ℝ))
+    (hr : firstExit inside s l = none) :
+    ∀ k, k ≠ 0 → k ≤ l.length → inside (flipAll s (l.take k)) = true := by
+  induction l generalizing s with
+  | nil => intro k hk0 hkle; exact absurd (Nat.le_zero.1 hkle) hk0
+  | cons x t ih =>
+    rw [firstExit_cons] at hr
+    by_cases hin : inside (flip1 s x) = false
+    · rw [if_pos hin] at hr; exact absurd hr (by simp)
+    · rw [if_neg hin] at hr
+      have hin' : inside (flip1 s x) = true := by simpa using hin
+      intro k hk0 hkle
+      cases k with
+      | zero => exact absurd rfl hk0
+      | succ k =>
+        show inside (flipAll (flip1 s x) (t.take k)) = true
+        by_cases hk00 : k = 0
+        · subst hk00; exact hin'
+        · exact ih (flip1 s x) hr k hk00 (by simpa using hkle)
 
 /-- limited search, complex volumes: scanning only the hits not further than the limit gives
     the unlimited exit if it is within the limit, and nothing otherwise -/
@@ -327,23 +344,21 @@ theorem firstExit_filter (inside : Array Bool → Bool) (p : Hit ℝ → Bool) (
     (s : Array Bool) (l : List (Hit ℝ)) (hs : Sorted l) :
     firstExit inside s (l.filter p) = (firstExit inside s l).filter (fun r => p r.1) := by
   induction l generalizing s with
-  | nil => simp [firstExit]
+  | nil => rfl
   | cons x t ih =>
     have hs' := List.pairwise_cons.1 hs
     by_cases hpx : p x = true
-    · rw [List.filter_cons_of_pos hpx]
-      simp only [firstExit]
-      split
-      · simp [Option.filter, hpx]
-      · exact ih _ hs'.2
+    · rw [List.filter_cons_of_pos hpx, firstExit_cons, firstExit_cons]
+      by_cases hin : inside (flip1 s x) = false
+      · rw [if_pos hin, if_pos hin]; simp [Option.filter, hpx]
+      · rw [if_neg hin, if_neg hin]; exact ih _ hs'.2
     · have hnone : (x :: t).filter p = [] := by
         rw [List.filter_eq_nil_iff]
         intro y hy
         rcases List.mem_cons.1 hy with rfl | hy
         · exact hpx
         · intro hc; exact hpx (hp x y (hs'.1 y hy) hc)
-      rw [hnone]
-      simp only [firstExit]
+      rw [hnone, firstExit_nil]
       cases hr : firstExit inside s (x :: t) with
       | none => rfl
       | some r =>
@@ -383,7 +398,7 @@ theorem firstEntered_filter (e : Hit ℝ → Option Bool) (p : Hit ℝ → Bool)
         · exact hpx
         · intro hc; exact hpx (hp x y (hs'.1 y hy) hc)
       rw [hnone]
-      simp only [firstEntered]
+      show none = _
       cases hr : firstEntered e (x :: t) with
       | none => rfl
       | some r =>
